@@ -251,6 +251,12 @@ bool DTDScanner::expandPERef( const   bool    scanExternal
         fScanner->getValidator()->emitError(XMLValid::VC_IllegalRefInStandalone, bbName.getRawBuffer());
 
     //
+    //  A parameter entity reference is an entity expansion like any other,
+    //  so it counts against the limit of the security manager, if any.
+    //
+    fScanner->countEntityExpansion();
+
+    //
     //  Okee dokee, we found it. So create either a memory stream with
     //  the entity value contents, or a file stream if its an external
     //  entity.
